@@ -634,6 +634,35 @@ fn invalid_deviations(schema: &SchemaModel, q: &Query, infos: &[NodeInfo], out: 
             }
         }
     }
+    // unsupported directive combinations on an existing edge, wherever it sits: a second modifier next to
+    // the one it has (@optional @fold, @recurse @fold, @optional @recurse), a zero recursion depth
+    for ni in infos.iter().skip(1) {
+        let e = edge_at(q, &ni.path);
+        let mut variants: Vec<(bool, Option<u32>, bool)> = vec![];
+        if e.fold {
+            variants.push((true, e.recurse, true));
+            variants.push((e.optional, Some(2), true));
+        }
+        if e.optional {
+            variants.push((true, e.recurse, true));
+            variants.push((true, Some(2), e.fold));
+        }
+        if e.recurse.is_some() {
+            variants.push((e.optional, e.recurse, true));
+            variants.push((true, e.recurse, e.fold));
+            variants.push((e.optional, Some(0), e.fold));
+        }
+        for (o, r, f) in variants {
+            if (o, r, f) != (e.optional, e.recurse, e.fold) {
+                let mut q2 = q.clone();
+                let e2 = edge_at_mut(&mut q2, &ni.path);
+                e2.optional = o;
+                e2.recurse = r;
+                e2.fold = f;
+                out.push(q2);
+            }
+        }
+    }
     // edge parameters of the wrong type / unknown / missing-required, on the root edge and on a new `nb` edge
     for (k, v) in [("min", values::s("a")), ("min", FV::Float64(1.5)), ("min", values::list(vec![values::i(1)])), ("only", values::i(1)), ("zz", values::i(1)), ("min", FV::Boolean(true))] {
         if q.root == "V" {
@@ -778,12 +807,12 @@ pub fn argument_maps(vars: &BTreeMap<String, TyRef>, wide: bool, cap_per_var: us
     maps
 }
 
-/// Queries with one or two added edges (next/one; plain, @optional, @fold, @recurse(2); bare
-/// contents) plus exactly one tag-related deviation (property tag + use, or count tag + use).
+/// Queries with one or two added edges (next/one; plain, @optional, @fold, @recurse(2); each with
+/// one output, so that what a filter inside a fold removes is visible in the rows) plus exactly one tag-related deviation (property tag + use, or count tag + use).
 /// These are 2- and 3-deviation members of the same space, selected because tag bookkeeping
 /// across optional / fold / recurse scopes needs at least two edges to exist first.
 pub fn tag_shapes(schema: &SchemaModel) -> Vec<Query> {
-    let cfg_e = GenCfg { allow: Some(vec!["E"]), e_names: Some(vec!["next", "one"]), e_contents: vec![0], recurse_depths: vec![2], naming_devs: false, ..Default::default() };
+    let cfg_e = GenCfg { allow: Some(vec!["E"]), e_names: Some(vec!["next", "one"]), e_contents: vec![1], recurse_depths: vec![2], naming_devs: false, ..Default::default() };
     let layers = enumerate(schema, &[skeleton()], 2, &cfg_e);
     let cfg_t = GenCfg { allow: Some(vec!["Pt", "Fct"]), tag_menu_cap: 3, naming_devs: false, ..Default::default() };
     let mut seen = HashSet::new();
@@ -796,4 +825,83 @@ pub fn tag_shapes(schema: &SchemaModel) -> Vec<Query> {
         }
     }
     out
+}
+
+/// Largest number of distinct property tags that one `@fold` of `q` imports from outside itself.
+pub fn max_tags_imported_by_a_fold(q: &Query) -> usize {
+    fn defined(n: &Node, out: &mut HashSet<String>) {
+        for it in &n.items {
+            match it {
+                Item::Prop(p) => {
+                    for d in &p.dirs {
+                        if let Dir::Tag(Some(t)) = d {
+                            out.insert(t.clone());
+                        }
+                    }
+                }
+                Item::Edge(e) => defined(&e.node, out),
+            }
+        }
+    }
+    fn used(n: &Node, out: &mut HashSet<String>) {
+        for it in &n.items {
+            match it {
+                Item::Prop(p) => {
+                    for d in &p.dirs {
+                        if let Dir::Filter { arg: Some(ArgRef::Tag(t)), .. } = d {
+                            out.insert(t.clone());
+                        }
+                    }
+                }
+                Item::Edge(e) => used(&e.node, out),
+            }
+        }
+    }
+    fn walk(n: &Node, best: &mut usize) {
+        for it in &n.items {
+            if let Item::Edge(e) = it {
+                if e.fold {
+                    let (mut d, mut u) = (HashSet::new(), HashSet::new());
+                    defined(&e.node, &mut d);
+                    used(&e.node, &mut u);
+                    *best = (*best).max(u.difference(&d).count());
+                }
+                walk(&e.node, best);
+            }
+        }
+    }
+    let mut best = 0;
+    walk(&q.node, &mut best);
+    best
+}
+
+/// Two-edge structures with exactly two tag deviations such that some `@fold` imports two distinct
+/// tags (the fold keeps per-context bookkeeping for every imported tag; one tag cannot show
+/// cross-talk between them).
+pub fn two_tag_fold_shapes(schema: &SchemaModel) -> Vec<Query> {
+    let cfg_e = GenCfg { allow: Some(vec!["E"]), e_names: Some(vec!["next", "one"]), e_contents: vec![1], recurse_depths: vec![2], naming_devs: false, ..Default::default() };
+    let layers = enumerate(schema, &[skeleton()], 2, &cfg_e);
+    let cfg_t = GenCfg { allow: Some(vec!["Pt"]), tag_menu_cap: 2, naming_devs: false, ..Default::default() };
+    let mut seen = HashSet::new();
+    let mut out = vec![];
+    for s in layers.iter().skip(1).flatten() {
+        if !text_has_fold(s) {
+            continue;
+        }
+        for q1 in deviations(schema, s, &cfg_t) {
+            for q in deviations(schema, &q1, &cfg_t) {
+                if max_tags_imported_by_a_fold(&q) >= 2 && seen.insert(fingerprint(&q)) {
+                    out.push(q);
+                }
+            }
+        }
+    }
+    out
+}
+
+fn text_has_fold(q: &Query) -> bool {
+    fn w(n: &Node) -> bool {
+        n.items.iter().any(|it| matches!(it, Item::Edge(e) if e.fold || w(&e.node)))
+    }
+    w(&q.node)
 }
